@@ -2,6 +2,7 @@ package main
 
 import (
 	"fmt"
+	"go/ast"
 	"go/types"
 
 	"golang.org/x/tools/go/ssa"
@@ -106,3 +107,120 @@ func nonNilAt(fn *ssa.Function, v ssa.Value, use ssa.Instruction) bool {
 	}
 	return false
 }
+
+func init() {
+	register(&Rule{ID: "NIL-funcfield", Props: []string{"C02"}, Min: 3,
+		Doc: "G (contradiction rule): a function-typed field of a struct of package otto that some composite literal leaves unset (or sets to nil) is nil for the values built there; calling through that field panics with a nil dereference. Every call through such a field must be dominated by a nil test of the field (as object.construct does for nativeFunctionObject.construct before `new f`): a second caller without the test (a bound function's [[Construct]] forwarding to a native target) is a host crash a script reaches with `new (parseInt.bind())`",
+		Run: ruleNilFuncField})
+}
+
+func ruleNilFuncField(c *Ctx, r *R) {
+	p := c.Otto()
+	info := p.TypesInfo
+	// fields of function type that some literal leaves nil
+	mayBeNil := map[*types.Var]string{}
+	for _, f := range p.Syntax {
+		ast.Inspect(f, func(n ast.Node) bool {
+			cl, ok := n.(*ast.CompositeLit)
+			if !ok {
+				return true
+			}
+			nt := derefNamed(info.TypeOf(cl))
+			if nt == nil || nt.Obj().Pkg() == nil || nt.Obj().Pkg().Path() != ottoPath {
+				return true
+			}
+			st, ok := nt.Underlying().(*types.Struct)
+			if !ok {
+				return true
+			}
+			set := map[string]bool{}
+			positional := false
+			for i, el := range cl.Elts {
+				if kv, ok := el.(*ast.KeyValueExpr); ok {
+					if id, ok := kv.Key.(*ast.Ident); ok {
+						if tv, ok := info.Types[kv.Value]; !ok || !tv.IsNil() {
+							set[id.Name] = true
+						}
+					}
+				} else {
+					positional = true
+					if i < st.NumFields() {
+						if tv, ok := info.Types[el]; !ok || !tv.IsNil() {
+							set[st.Field(i).Name()] = true
+						}
+					}
+				}
+			}
+			_ = positional
+			for i := 0; i < st.NumFields(); i++ {
+				fld := st.Field(i)
+				if _, isFunc := fld.Type().Underlying().(*types.Signature); !isFunc {
+					continue
+				}
+				if !set[fld.Name()] {
+					if _, seen := mayBeNil[fld]; !seen {
+						mayBeNil[fld] = c.Pos(cl.Pos())
+					}
+				}
+			}
+			return true
+		})
+	}
+	n := 0
+	for _, fn := range c.AllSrcFuncs("") {
+		ord := map[string]int{}
+		for _, b := range fn.Blocks {
+			for _, ins := range b.Instrs {
+				ci, ok := ins.(ssa.CallInstruction)
+				if !ok {
+					continue
+				}
+				cc := ci.Common()
+				if cc.IsInvoke() || cc.StaticCallee() != nil {
+					continue
+				}
+				var fld *types.Var
+				var owner *types.Named
+				switch v := cc.Value.(type) {
+				case *ssa.Field:
+					if st, ok := v.X.Type().Underlying().(*types.Struct); ok {
+						fld = st.Field(v.Field)
+						owner, _ = v.X.Type().(*types.Named)
+					}
+				case *ssa.UnOp:
+					if fa, ok := v.X.(*ssa.FieldAddr); ok {
+						owner, fld = fieldOfAddr(fa)
+					}
+				}
+				if fld == nil {
+					continue
+				}
+				where, nilable := mayBeNil[fld]
+				if !nilable {
+					continue
+				}
+				n++
+				oname := "?"
+				if owner != nil {
+					oname = owner.Obj().Name()
+				}
+				base := fmt.Sprintf("%s:%s.%s", ssaFuncName(fn), oname, fld.Name())
+				ord[base]++
+				key := fmt.Sprintf("%s#%d", base, ord[base])
+				site := c.Pos(instrPos(ins))
+				if nonNilAt(fn, cc.Value, ins) {
+					r.ok(key, site, "the field is tested for nil before the call")
+					continue
+				}
+				if why, ok := nilFuncFieldReviewed[base]; ok {
+					r.ok("reviewed:"+key, site, why)
+					continue
+				}
+				r.bad(key, site, fmt.Sprintf("%s calls through the function field %s.%s without a nil test, but the literal at %s leaves that field unset: for values built there the call is a nil dereference in the host", ssaFuncName(fn), oname, fld.Name(), where))
+			}
+		}
+	}
+	r.ok("census", "-", fmt.Sprintf("%d calls through possibly-nil function fields examined", n))
+}
+
+var nilFuncFieldReviewed = map[string]string{}
